@@ -233,6 +233,9 @@ def check_expectations(case, hist, key0):
             elif exp == "true":
                 okay = rr == ("val", True)
                 rule = "false-instead-of-true"
+            elif exp == "false":
+                okay = rr == ("val", False)
+                rule = "true-instead-of-false"
             elif exp == "raised":
                 okay = rr == ("raised",)
             elif exp == "mainthread":
